@@ -165,6 +165,8 @@ def _sig_tight_multiblock(case: dict, f: Failure) -> bool:
     return f.bucket == "preserve-changes-tightness" and bool(f.data.get("tight_multiblock_input"))
 
 
+DECOMPOSE_KEY = "text"  # several recorded findings in one document: see core.sig_hit
+
 SIGS = {"tight_list_multiblock_item": _sig_tight_multiblock}
 
 
